@@ -1,9 +1,10 @@
 """C03 -- DER is the distinguished encoding (obligations visible in code shape; DESIGN.md section 4 C03)."""
 import ast
+import re
 
 from ..model import AnalysisError, Model, ClassInfo, walk_no_nested, norm_stmt, names_in
 from ..callgraph import CallGraph
-from .. import flow, dispatch
+from .. import flow, dispatch, sem
 
 EXPLANATION = (
     'Each clause is an obligation X.690 10-11 puts on a DER encoder that is visible as a call or class relation: (R1) the DER dispatch compiles '
@@ -73,8 +74,8 @@ def check(ctx):
 
     # ---- R1
     cell = tab.cells['SET']
-    src = ' '.join(ast.unparse(s) for s in cell.body)
-    sort_flag = 'sort_by_tag=True' in src
+    sort_flag = any(isinstance(n, ast.Call) and any(k.arg == 'sort_by_tag' and isinstance(k.value, ast.Constant) and k.value.value is True for k in n.keywords)
+                    for st in cell.body for n in ast.walk(st))
     enc_sort = False
     if cell.cls is not None:
         for f in encode_reach(cg, cell.cls):
@@ -88,16 +89,43 @@ def check(ctx):
                       'DER must encode SET components in ascending tag order (X.690 10.3); the DER compiler neither passes sort_by_tag=True (as the BER sibling does) nor sorts when encoding',
                       stmt='SET not sorted')
     cm = model.func(BER, 'Compiler.compile_members')
-    srt = [n for n in walk_no_nested(cm) if isinstance(n, ast.Call) and ast.unparse(n.func) == 'sorted']
-    ok = any(any(pol and ast.unparse(t) == 'sort_by_tag' for t, pol in flow.guards_of(n, cm)) and 'key=get_tag_no_encoding' in ast.unparse(n) for n in srt)
-    ctx.instance('C03.R1', 'ber.Compiler.compile_members sorts by get_tag_no_encoding under sort_by_tag', 'ok' if ok else 'VIOLATION', node=cm, file=BER)
+    # a sort (sorted(...) / .sort(...)) executed when the sort_by_tag flag is set, whose key function masks the constructed bit
+    flag = 'sort_by_tag' if 'sort_by_tag' in flow.param_names(cm) else None
+    if flag is None:
+        raise AnalysisError('ber.Compiler.compile_members has no sort_by_tag parameter')
+    srt = [n for n in walk_no_nested(cm) if isinstance(n, ast.Call) and ((isinstance(n.func, ast.Name) and n.func.id == 'sorted') or (isinstance(n.func, ast.Attribute) and n.func.attr == 'sort'))]
+    keyfn = None
+    ok = False
+    for n in srt:
+        under_flag = any(pol and flag in names_in(t) for t, pol in flow.guards_of(n, cm)) or any(isinstance(a, ast.IfExp) and flag in names_in(a.test) for a in flow.ancestors(n))
+        key = [k.value for k in n.keywords if k.arg == 'key']
+        if under_flag and key:
+            r = cm._mod.resolve(key[0]) if isinstance(key[0], (ast.Name, ast.Attribute)) else (key[0] if isinstance(key[0], ast.Lambda) else None)
+            if isinstance(r, (ast.FunctionDef, ast.Lambda)):
+                keyfn = r
+                ok = True
+    ctx.instance('C03.R1', 'ber.Compiler.compile_members sorts by a tag key under sort_by_tag', 'ok' if ok else 'VIOLATION', node=cm, file=BER)
     if not ok:
         ctx.violation('C03.R1', BER, cm, Model.qual(cm), 'compile_members no longer sorts the members by tag (without the constructed bit) when sort_by_tag is given', stmt='sort under sort_by_tag')
-    g = model.func(BER, 'get_tag_no_encoding')
-    ok = '~Encoding.CONSTRUCTED' in ast.unparse(g) and 'member.tag[1:]' in ast.unparse(g)
-    ctx.instance('C03.R1', 'get_tag_no_encoding masks the constructed bit and keeps the following tag octets', 'ok' if ok else 'VIOLATION', node=g, file=BER)
+    g = keyfn if keyfn is not None else model.func(BER, 'get_tag_no_encoding')
+    # the key: first identifier octet with the constructed bit cleared (& ~Encoding.CONSTRUCTED or & 0xdf), followed by the remaining tag octets
+    gv = sem.View(g) if isinstance(g, ast.FunctionDef) else None
+    body_exprs = [gv.expr(r.value) for r in walk_no_nested(g) if isinstance(r, ast.Return) and r.value is not None] if gv else [g.body]
+    def masks(e):
+        for n in ast.walk(e):
+            if isinstance(n, ast.BinOp) and isinstance(n.op, ast.BitAnd):
+                for side in (n.left, n.right):
+                    t = ast.unparse(side)
+                    if t in ('~Encoding.CONSTRUCTED', '223', '~32') or (isinstance(side, ast.Constant) and side.value == 0xdf):
+                        return True
+        return False
+    def keeps_rest(e):
+        return any(isinstance(n, ast.Subscript) and isinstance(n.slice, ast.Slice) and n.slice.lower is not None and ast.unparse(n.slice.lower) == '1' and n.slice.upper is None
+                   for n in ast.walk(e))
+    ok = bool(body_exprs) and all(masks(e) and keeps_rest(e) for e in body_exprs)
+    ctx.instance('C03.R1', 'the sort key masks the constructed bit and keeps the following tag octets', 'ok' if ok else 'VIOLATION', node=g, file=BER)
     if not ok:
-        ctx.violation('C03.R1', BER, g, Model.qual(g), 'the sort key must be the tag without the primitive/constructed bit (X.690 10.3 / X.680 8.6)', stmt='sort key')
+        ctx.violation('C03.R1', BER, g, Model.qual(g) if isinstance(g, ast.FunctionDef) else Model.qual(cm), 'the sort key must be the tag without the primitive/constructed bit (X.690 10.3 / X.680 8.6)', stmt='sort key')
 
     # ---- R2
     cell = tab.cells['SET OF']
@@ -114,15 +142,25 @@ def check(ctx):
 
     # ---- R3
     em = model.func(BER, 'MembersType.encode_member')
-    calls = [c for c in walk_no_nested(em) if isinstance(c, ast.Call) and ast.unparse(c.func) == 'member.encode']
-    ok = any(any(pol and 'not member.is_default(' in ast.unparse(t) for t, pol in flow.guards_of(c, em)) for c in calls)
+    calls = [c for c in sem.method_calls(em, 'encode') if len(c.args) >= 2]
+    ok = bool(calls) and all(any((pol and re.search(r'not\s+[\w\.\[\]]+\.is_default\(', ast.unparse(t))) or
+                                 ((not pol) and re.search(r'[\w\.\[\]]+\.is_default\(', ast.unparse(t)) and not re.search(r'not\s+[\w\.\[\]]+\.is_default\(', ast.unparse(t))) or
+                                 (pol and re.search(r'isinstance\([\w\.]+, AnyDefinedBy\)', ast.unparse(t)))
+                                 for t, pol in flow.guards_of(c, em)) for c in calls)
     ctx.instance('C03.R3', 'ber.MembersType.encode_member omits components equal to their DEFAULT', 'ok' if ok else 'VIOLATION', node=em, file=BER)
     if not ok:
         ctx.violation('C03.R3', BER, em, Model.qual(em), 'a component equal to its DEFAULT value is encoded (X.690 11.5 forbids it in DER)', stmt='default omission')
     for rel in (BER, DER):
         f = model.func(rel, 'BitString.is_default')
-        src = ast.unparse(f)
-        ok = src.count('clean_bit_string_value(') == 2 and 'clean_value == clean_default' in src
+        ps = sem.paths(f) or []
+        # every path that compares returns  clean(value) == clean(default): both operands are passed through clean_bit_string_value
+        cmp_rets = [p for p in ps if p.outcome[0] == 'return' and isinstance(p.outcome[3], ast.Compare)]
+        ok = bool(cmp_rets)
+        for p in cmp_rets:
+            e = p.outcome[3]
+            sides = [e.left] + list(e.comparators)
+            if not (len(sides) == 2 and isinstance(e.ops[0], ast.Eq) and all(isinstance(x, ast.Call) and sem.callee_name(x) == 'clean_bit_string_value' for x in sides)):
+                ok = False
         ctx.instance('C03.R3', '%s compares cleaned values' % Model.qual(f), 'ok' if ok else 'VIOLATION', node=f, file=rel)
         if not ok:
             ctx.violation('C03.R3', rel, f, Model.qual(f), 'BIT STRING default comparison must ignore unused bits / trailing zero named bits on both sides', stmt='cleaned comparison')
@@ -193,37 +231,80 @@ def check(ctx):
 
     # ---- R6
     f = model.func('asn1tools/codecs/compiler.py', 'Compiler.pre_process_tags_type')
-    chain = None
-    for n in walk_no_nested(f):
-        if isinstance(n, ast.If) and ast.unparse(n.test) == "'kind' not in tag":
-            chain = n.body[0]
-    order = []
-    t = chain
-    while isinstance(t, ast.If):
-        order.append((ast.unparse(t.test), ast.unparse(t.body[0])))
-        t = t.orelse[0] if len(t.orelse) == 1 and isinstance(t.orelse[0], ast.If) else None
-    tests = [o[0] for o in order]
-    ok = len(order) >= 3 and tests[0] == "resolved_type_name == 'CHOICE'" and "'EXPLICIT'" in order[0][1] \
-        and 'is_dummy_reference' in tests[1] and "'EXPLICIT'" in order[1][1] and 'module_tags' in tests[2]
-    ctx.instance('C03.R6', 'pre_process_tags_type: %s' % tests, 'ok' if ok else 'VIOLATION', node=f, file='asn1tools/codecs/compiler.py')
+    ps = sem.paths(f)
+    if ps is None:
+        raise AnalysisError('pre_process_tags_type: too many paths')
+    kind_stores = []
+    for p in ps:
+        for ev in p.events:
+            if ev[0] == 'store' and re.search(r"\['kind'\] = ", ev[1]):
+                # the conditions established before this store
+                k = None
+                for ev2 in p.events:
+                    if ev2[0] == 'stmt' and ev2[2] is ev[2]:
+                        k = ev2[1]
+                kind_stores.append((p, p.conds[:k] if k is not None else p.conds, ev[1].split(' = ', 1)[1]))
+    if len(kind_stores) < 3:
+        raise AnalysisError('pre_process_tags_type: only %d paths set the tag kind' % len(kind_stores))
+    is_choice = lambda t: "'CHOICE'" in t and ' == ' in t
+    is_dummy = lambda t: 'is_dummy_reference(' in t
+    bad = None
+    seen_choice = seen_dummy = through_refs = False
+    for p, conds, val in kind_stores:
+        lits = {(c[0], c[1]) for c in conds}
+        ch_true = any(is_choice(t) and pol for t, pol in lits)
+        du_true = any(is_dummy(t) and pol for t, pol in lits)
+        ch_false = any(is_choice(t) and not pol for t, pol in lits)
+        du_false = any(is_dummy(t) and not pol for t, pol in lits)
+        if ch_true:
+            seen_choice = True
+            if any(is_choice(t) and 'resolve_type_name(' in t for t, pol in lits):
+                through_refs = True
+        if du_true:
+            seen_dummy = True
+        if (ch_true or du_true) and val != "'EXPLICIT'":
+            bad = 'a tagged %s gets kind %s' % ('CHOICE' if ch_true else 'dummy reference', val)
+        if not (ch_true or du_true) and not (ch_false and du_false):
+            bad = 'the tag kind is set to %s on a path that has not first excluded CHOICE and dummy references' % val
+    ok = bad is None and seen_choice and seen_dummy
+    ctx.instance('C03.R6', 'pre_process_tags_type: %d kind assignments; CHOICE / dummy reference forced EXPLICIT before any default' % len(kind_stores), 'ok' if ok else 'VIOLATION', node=f, file='asn1tools/codecs/compiler.py')
     if not ok:
         ctx.violation('C03.R6', 'asn1tools/codecs/compiler.py', f, Model.qual(f),
-                      'X.680 31.2.7: a tagged CHOICE (and an untagged-type dummy reference) is always EXPLICIT; the tests must precede the module default, found order %s' % tests, stmt='CHOICE before module default')
-    rt = [n for n in walk_no_nested(f) if isinstance(n, ast.Assign) and ast.unparse(n.targets[0]) == 'resolved_type_name']
-    ok = bool(rt) and 'self.resolve_type_name(type_name, module_name)' in ast.unparse(rt[0].value)
+                      'X.680 31.2.7: a tagged CHOICE (and an untagged-type dummy reference) is always EXPLICIT; the tests must precede the module default: %s' % (bad or 'no path tests for CHOICE / dummy reference'), stmt='CHOICE before module default')
+    ok = through_refs
     ctx.instance('C03.R6', 'the CHOICE test is made on the resolved type (through references)', 'ok' if ok else 'VIOLATION', node=f, file='asn1tools/codecs/compiler.py')
     if not ok:
         ctx.violation('C03.R6', 'asn1tools/codecs/compiler.py', f, Model.qual(f), 'the CHOICE test must look through type references (resolve_type_name)', stmt='resolved type')
 
     # ---- R7
     f = model.func(BER, 'encode_length_definite')
-    src = ast.unparse(f)
-    ok = 'if length <= 127:' in src and 'while length > 0:' in src and 'encoded.append(128 | len(encoded))' in src and 'encoded.reverse()' in src and 'length >>= 8' in src
+    ps = sem.paths(f, positional=True)
+    if ps is None:
+        raise AnalysisError('encode_length_definite: too many paths')
+    short = sem.ccond(sem.parse_expr('ARG0 <= 127'))
+    has_short = any(p.has(short[0], short[1]) and not any(ev[0] == 'loop' for ev in p.events) for p in ps)
+    long_ = [p for p in ps if p.has(short[0], not short[1])]
+    # long form: a loop that runs while the remaining value is non-zero and drops 8 bits per round, then 0x80 | number of octets
+    nz = {sem.ccond(sem.parse_expr(x))[0] for x in ('ARG0 > 0', 'ARG0 != 0')} | {'ARG0'}
+    def minimal_loop(p):
+        for ev in p.events:
+            if ev[0] == 'loop' and isinstance(ev[2], ast.While):
+                t, pol = sem.ccond(ev[2].test, {flow.param_names(f)[0]: ast.Name(id='ARG0', ctx=ast.Load())})
+                shifts = [n for n in ast.walk(ev[2]) if isinstance(n, ast.AugAssign) and isinstance(n.op, ast.RShift) and isinstance(n.value, ast.Constant) and n.value.value == 8]
+                shifts += [n for n in ast.walk(ev[2]) if isinstance(n, ast.AugAssign) and isinstance(n.op, ast.FloorDiv) and isinstance(n.value, ast.Constant) and n.value.value == 256]
+                if t in nz and pol and shifts:
+                    return True
+        return False
+    count_octet = any(isinstance(n, ast.BinOp) and isinstance(n.op, ast.BitOr) and any(isinstance(x, ast.Constant) and x.value == 0x80 for x in (n.left, n.right))
+                      and any(isinstance(x, ast.Call) and sem.callee_name(x) == 'len' for x in ast.walk(n)) for n in walk_no_nested(f))
+    ok = has_short and bool(long_) and all(minimal_loop(p) for p in long_) and count_octet
     ctx.instance('C03.R7', 'encode_length_definite: short form <= 127, else the fewest octets', 'ok' if ok else 'VIOLATION', node=f, file=BER)
     if not ok:
         ctx.violation('C03.R7', BER, f, Model.qual(f), 'definite lengths must use the short form up to 127 and the minimum number of octets above (X.690 10.1)', stmt='minimal length')
     f = model.func(BER, 'encode_tag')
-    ok = 'if number < 31:' in ast.unparse(f)
+    ps = sem.paths(f, positional=True) or []
+    low = sem.ccond(sem.parse_expr('ARG0 < 31'))
+    ok = any(p.has(low[0], low[1]) for p in ps) and any(p.has(low[0], not low[1]) for p in ps)
     ctx.instance('C03.R7', 'encode_tag: low-tag-number form below 31', 'ok' if ok else 'VIOLATION', node=f, file=BER)
     if not ok:
         ctx.violation('C03.R7', BER, f, Model.qual(f), 'tag numbers 0..30 must use the single-octet form (X.690 8.1.2.2)', stmt='low tag form')
@@ -242,6 +323,7 @@ def check(ctx):
     # ---- R8
     for rel, fn, var in ((BER, 'encode_object_identifier_subidentifier', 'subidentifier'), (BER, 'encode_tag', 'number'), ('asn1tools/codecs/oer.py', 'encode_tag', 'number')):
         f = model.func(rel, fn)
+        var = flow.param_names(f)[0]
         shifts = {n.value.value for n in walk_no_nested(f) if isinstance(n, ast.AugAssign) and isinstance(n.op, ast.RShift) and isinstance(n.value, ast.Constant)}
         allowed_first = {31} if (rel == BER and fn == 'encode_tag') else ({63} if fn == 'encode_tag' else set())
         bad = []
